@@ -65,3 +65,8 @@ package swagtool
 
 //@ func GetJsonNameFromTag props C07,C14
 //@ ensures true
+
+// ---- statements shared by the 3.0 and the 3.1 emitters (C06, C11): which method parameters become `parameters`
+// entries, and at which position ----
+//@ spec isRouteParam(p definitions.FuncParam) bool = !p.IsContext && p.PassedIn != definitions.PassedInBody && p.PassedIn != definitions.PassedInForm
+//@ rec countRouteParams(r definitions.RouteMetadata, n int) int = ite(n <= 0, 0, countRouteParams(r, n-1) + ite(isRouteParam(r.FuncParams[n-1]), 1, 0))
